@@ -53,4 +53,5 @@ uint64_t vt_mutate_word(uint64_t h);                    /* structured near-valid
 void *gb_alloc(size_t n, size_t sz, unsigned char fill);
 int gb_ok(void *p);                                     /* canaries intact */
 void gb_free(void *p);
+void vt_overrun_check(void *p, const char *f, uint64_t arg); /* emits an Overrun event if the canaries of p are damaged */
 #endif
